@@ -367,6 +367,15 @@ func makeGenDefinitionHierarchy(name, pkg, container string, schema spec.Schema,
 		"strfmt":   "github.com/go-openapi/strfmt",
 	}
 
+	// the extra schemas (anonymous objects given a type of their own) are written in the same file
+	imports := findImports(&pg.GenSchema)
+	for _, extra := range pg.ExtraSchemas {
+		e := extra
+		for k, v := range findImports(&e) {
+			imports[k] = v
+		}
+	}
+
 	return &GenDefinition{
 		GenCommon: GenCommon{
 			Copyright:        opts.Copyright,
@@ -377,7 +386,7 @@ func makeGenDefinitionHierarchy(name, pkg, container string, schema spec.Schema,
 		DependsOn:      pg.Dependencies,
 		DefaultImports: defaultImports,
 		ExtraSchemas:   gatherExtraSchemas(pg.ExtraSchemas),
-		Imports:        findImports(&pg.GenSchema),
+		Imports:        imports,
 		External:       isExternal(schema),
 	}, nil
 }
